@@ -291,7 +291,10 @@ def run(ck, facts, tier, only_types=None):
                                                   and field_path(x["recv"]) == (pname, "currencies")]
                                         idx0 = [x for x in hir.walk(s["init"]) if x.get("k") == "index" and field_path(x["e"]) == (pname, "currencies")
                                                 and strip(x["i"]).get("v") == "0"]
-                                        ok1 = bool(firsts or idx0)
+                                        get0 = [x for x in hir.walk(s["init"]) if x.get("k") == "mcall" and x["m"] in ("get_index", "get", "iter") and field_path(x["recv"]) == (pname, "currencies")
+                                                and ((x["m"] == "iter" and any(y.get("k") == "mcall" and y["m"] == "next" and y["recv"] is x for y in hir.walk(s["init"]))) or
+                                                     (x["m"] != "iter" and len(x["args"]) == 1 and strip(x["args"][0]).get("v") == "0"))]          # get_index(0) / get(0) / iter().next()
+                                        ok1 = bool(firsts or idx0 or get0)
                 ck.check(s7, adt, ok0 and ok1, "FXRates is not rebuilt as try_new(model.fx_rates, Some(first stored currency)): %s" % hir.fmt(calls[0]), cwhere,
                          sample="try_new(model.fx_rates, Some(*model.currencies.first()))")
         else:
